@@ -412,8 +412,30 @@ def gen_invivo_ops(rng, n_modules=None, size=None):
     n_modules = n_modules or rng.choice([1, 2, 2, 3])
     size = size or rng.choice([2, 4, 6])
     files = projgen.gen_project(rng, n_modules, size)
+    lang = "python"
+    if rng.random() < 0.3:
+        # files from the repository's own corpora in other languages (the default handler table is per language)
+        from sim.core import REPO_DIR
+        sub, ext, lang_ = rng.choice([("dataflows/javascript", ".js", "javascript"), ("lang_parser/javascript", ".js", "javascript"),
+                                      ("lang_parser/java", ".java", "java"), ("dataflows/java", ".java", "java"),
+                                      ("lang_parser/go", ".go", "go"), ("lang_parser/php", ".php", "php"), ("import/js", ".js", "javascript")])
+        cands = []
+        for root, dirs, fns in os.walk(os.path.join(REPO_DIR, "tests", sub)):
+            dirs.sort()
+            cands += [os.path.join(root, f) for f in sorted(fns) if f.endswith(ext) and os.path.getsize(os.path.join(root, f)) < 5000]
+        if cands:
+            files = {}
+            for p in rng.sample(cands, min(len(cands), rng.choice([1, 2, 3]))):
+                try:
+                    files[os.path.basename(p)] = open(p, encoding="utf-8", errors="replace").read()
+                except OSError:
+                    pass
+            if files:
+                lang = lang_
+            else:
+                files = projgen.gen_project(rng, 1, 2)
     ops = [{"op": "file", "path": p, "content": files[p]} for p in sorted(files)]
-    ops.append({"op": "run", "sub": rng.choice(["run", "run", "semantic"]),
+    ops.append({"op": "run", "lang": lang, "sub": rng.choice(["run", "run", "semantic"]),
                 "flags": sorted(set(rng.sample(["--enable-p2", "--nomock", "--graph"], rng.randint(0, 2)))),
                 "max_rows": rng.choice([1, 3, 8, 20, 60, 400000]),
                 "caps": {"LRU_CACHE_CAPACITY": rng.choice([1, 2, 3, 20]), "BUNDLE_CACHE_CAPACITY": rng.choice([1, 2]),
@@ -446,7 +468,7 @@ def run_ops(ops, timeout=240):
                 f.write(op["content"])
         knobs = {"max_rows": run.get("max_rows", 400000), "caps": run.get("caps", {}), "sample_every": run.get("sample_every", 7),
                  "xprocess_hashseed": run.get("xprocess_hashseed", 0) if not run.get("fault") else 0, "fault": run.get("fault")}
-        argv = lianrun.build_argv({"sub": run.get("sub", "run"), "lang": "python", "force": True, "workspace": os.path.join(B, "ws"),
+        argv = lianrun.build_argv({"sub": run.get("sub", "run"), "lang": run.get("lang", "python"), "force": True, "workspace": os.path.join(B, "ws"),
                                    "inputs": [proj], "flags": run.get("flags", [])}, ctx["settings"])
 
         def before_run(M):
